@@ -987,6 +987,10 @@ Definition step (w : world) (op : obs) : world * obs :=
         | Ok (Some _) => mutate w i b (do b' <- sclear_loop (S (Z.to_nat (b_size b))) b; Ok (b', N))
         | r => (w, obs_err r)
         end)
+  (* the program drops its last reference to the tree handle (`del tree`; the garbage collector
+     frees the BTree object - not the nodes still shared with clones): nothing observable happens.
+     The handle stays in the model's world (indices are stable); histories do not use it again. *)
+  | L [I 48; I ti] => with_tree w ti (fun i b => (w, N))
   | _ => (w, E eBadCase)
   end.
 
